@@ -17,11 +17,11 @@ RULE = ("every case writes REAL files below a fresh tempfile.mkdtemp() root (out
         "Imaging.output_to_fits -> Imaging.from_fits) and the util functions (numpy_array_{1,2}d_to_fits / _via_fits_from / "
         "header_obj_from), under both values of general.fits.flip_for_ds9; the directory tree and the raw content of every file "
         "are re-read with astropy after the write and compared with the model's file-system state; contents are non-symmetric "
-        "(all cells distinct) with negative, tiny (2^-60, 5e-324) and huge (2^70, 1e300) magnitudes, all exactly representable. "
+        "(all cells distinct), pixel scales isotropic and anisotropic, values with negative, tiny (2^-60, 5e-324) and huge (2^70, 1e300) magnitudes, all exactly representable. "
         "A case is non-trivial unless the array has a single cell; distinct = distinct JSON input.")
 EXHAUSTIVE = {
     "quick": "all shapes HxW <= 4x4 (incl. 1xN, Nx1) x flip x {Array2D, Kernel2D, Mask2D} x {file, hdu} route; all 1-D lengths 1..6 x flip "
-             "x {Array1D, Mask1D} x {file, hdu}; all boolean masks with H*W <= 6 (Mask2D file+hdu, masked Array2D); all file-system "
+             "x {Array1D, Mask1D} x {file, hdu}; all boolean masks with H*W <= 6 (Mask2D and masked Array2D through the hdu route, every third also through a file); all file-system "
              "scenarios {bare name, 1 dir, 2 dirs} x {directory absent, partly present, present} x {target absent, present} x overwrite "
              "x flip x {relative, absolute path}; hdu index in [-3..2] on 1- and 2-HDU files",
     "thorough": "as quick with shapes <= 6x6, masks with H*W <= 9 (sampled above 2^9), 1-D lengths 1..9, plus 10x the random budget",
@@ -32,7 +32,10 @@ TRUSTED = ["astropy FITS codec = identity on (float64 data, PIXSCALE* header car
            "directories by every file case; targets that are directories / directory parts that are files are outside the model",
            "correspondence harness harness/c16.py (generators, snapshot of the temporary tree, Fraction(float) conversion)",
            "slim/native scatter of Array2D.native is modelled in its consuming form (C01 proves the scatter form equivalent)"]
-ASSUMPTIONS = ["header cards hold the pixel scale exactly: astropy formats a float card in 20 characters, so a scale needing more than "
+ASSUMPTIONS = ["the model follows the code as repaired by fixes/C16_array1d_hdu_flip.diff and fixes/C16_anisotropic_pixel_scale_header.diff "
+               "(Array1D.hdu_for_output does not flip; PIXSCALEY/PIXSCALEX cards for unequal scales): on a tree without them the 1-D hdu "
+               "route under flip_for_ds9 and every anisotropic hdu/header case is reported as a violation",
+               "header cards hold the pixel scale exactly: astropy formats a float card in 20 characters, so a scale needing more than "
                "16 significant digits together with an exponent (e.g. 2^-40) is NOT reproduced by the codec; generators use scales with short "
                "decimal expansions",
                "floating point is exact on the generated values (mask multiplication by 1.0/0.0, psf normalisation by a sum equal to 1)",
@@ -382,7 +385,7 @@ def gen_inputs(tier, rng):
             mask = falses(h, w)
             if h * w > 1: mask[(h * w // 2) // w][(h * w // 2) % w] = True; mask[0][0] = (h + w) % 2 == 0
             for flip in (False, True):
-                sc = [1.0, 1.0] if (h + w) % 3 else [0.5, 0.5]
+                sc = [[0.5, 0.5], [1.0, 1.0], [0.5, 0.25]][(h + w) % 3]
                 for kd in ("array", "kernel"):
                     mk = mask if kd == "array" else falses(h, w)
                     yield {"op": "file2", "flip": flip, "kd": kd, "vals": vals, "mask": mk, "sc": sc, "fs0": E, "p": [1, 10], "abs": (h + w) % 2 == 0, "ow": False, "k": 0}
@@ -412,7 +415,7 @@ def gen_inputs(tier, rng):
                 i += 1; flip = i % 2 == 0
                 yield {"op": "hdum2", "flip": flip, "mask": mask, "sc": [1.0, 1.0]}
                 yield {"op": "hdu2", "flip": not flip, "kd": "array", "vals": vals, "mask": mask, "sc": [2.0, 2.0]}
-                if i % 3 == 0 or not big:
+                if i % 3 == 0:
                     yield {"op": "filem2", "flip": flip, "mask": mask, "sc": [0.5, 0.5], "fs0": E, "p": [10], "abs": False, "ow": False, "k": 0,
                            "rs": ([h, w] if i % 4 == 0 else None), "inv": i % 5 < 2}
                     yield {"op": "file2", "flip": flip, "kd": "array", "vals": vals, "mask": mask, "sc": [1.5, 1.5], "fs0": E, "p": [10], "abs": False, "ow": False, "k": 0}
@@ -471,7 +474,7 @@ def gen_inputs(tier, rng):
         if all(all(r) for r in mask): mask[0][0] = False
         noise = [[float(rng.choice([0.5, 1.0, 2.0, 4.0, 0.25])) for _ in range(w)] for _ in range(h)]
         fs0 = E if j % 3 else {"dirs": [[1]], "files": [[[1, 11], [old_hdu(2, 1)]]]}
-        yield {"op": "imaging", "flip": j % 4 < 2, "mask": mask, "data": content2(h, w, rng), "noise": noise, "psf": psfs[j % 4], "sc": [0.5, 0.5],
+        yield {"op": "imaging", "flip": j % 4 < 2, "mask": mask, "data": content2(h, w, rng), "noise": noise, "psf": psfs[j % 4], "sc": [0.5, 0.25] if j % 5 == 0 else [0.5, 0.5],
                "fs0": fs0, "pd": [1, 10], "pp": [1, 11] if j % 3 == 0 else [2, 11], "pn": [12], "abs": j % 2 == 0, "ow": j % 6 == 0, "chk": j % 2 == 0}
     # 7. random larger cases with special magnitudes
     scen2 = fs_scenarios(2); scen1 = fs_scenarios(1)
@@ -480,7 +483,7 @@ def gen_inputs(tier, rng):
         flip = rng.random() < 0.5
         sp = rng.random() < 0.4
         vals = content2(h, w, rng, sp); mask = rand_mask(h, w, rng) if rng.random() < 0.6 else falses(h, w)
-        s = rng.choice(SCALES); sc = [s, s]
+        s = rng.choice(SCALES); sc = [s, s] if rng.random() < 0.7 else [s, rng.choice(SCALES)]
         fs0, p = rng.choice(scen2); ow = rng.random() < 0.5; ab = rng.random() < 0.5
         t = j % 8
         if t == 0: yield {"op": "file2", "flip": flip, "kd": "array", "vals": vals, "mask": mask, "sc": sc, "fs0": fs0, "p": p, "abs": ab, "ow": ow, "k": rng.choice([0, 0, -1])}
